@@ -78,6 +78,7 @@ func c06RoundTrip(channel string, host any) (any, []byte, error) {
 			return nil, b, err
 		}
 		v, err := ap.UnmarshalJSON(b)
+		disturb(len(b))
 		return v, b, err
 	case "json-method":
 		b, err := jsonEncode("method", host)
@@ -181,10 +182,14 @@ func c06Run(c *engine.Ctx) {
 		}
 		return b.String(), n.String()
 	}
+	var oneText func(p c06Pos, form, ch string, text, tname string)
 	one := func(p c06Pos, form, ch string, seq []int) {
 		text, tname := render(seq)
+		oneText(p, form, ch, text, tname)
+	}
+	oneText = func(p c06Pos, form, ch string, text, tname string) {
 		class := fmt.Sprintf("C06|%s|%s|%s", ch, p.name, form)
-		c.Do(class, func() string { return fmt.Sprintf("%s = %q [%s] as %s through %s", p.name, text, tname, form, ch) }, func(t *engine.T) {
+		c.Do(class, func() string { return fmt.Sprintf("%s = %.80q [%s] as %s through %s", p.name, text, tname, form, ch) }, func(t *engine.T) {
 			t.Distinct(strings.Trim(text, "abcdefghijklmnopqrstuvwxyz ") != "")
 			host := c06Build(p, form, []byte(text))
 			back, js, err := c06RoundTrip(ch, host)
@@ -246,6 +251,29 @@ func c06Run(c *engine.Ctx) {
 			for _, ch := range c06Channels {
 				for _, seq := range texts {
 					one(p, form, ch, seq)
+				}
+			}
+		}
+	}
+	// boundary lengths: every token right before, across and after every power-of-two offset a buffered or chunked
+	// implementation could use
+	for _, B := range []int{16, 32, 64, 128, 256, 512, 1024, 2048, 4096, 8192, 65536} {
+		for off := B - 4; off <= B+1; off++ {
+			for ti, tok := range c06Tokens {
+				if B > 4096 && len(tok) < 2 && tok != `"` && tok != `\` {
+					continue
+				}
+				text := strings.Repeat("a", off) + tok + "zz"
+				tname := fmt.Sprintf("a*%d·%s·zz", off, c06TokenNames[ti])
+				for pi, p := range c06Positions {
+					for _, form := range c06Forms {
+						for _, ch := range c06Channels {
+							if pi != 2 && (form != "single-untagged" || ch != "json-method") {
+								continue
+							}
+							oneText(p, form, ch, text, tname)
+						}
+					}
 				}
 			}
 		}
